@@ -168,10 +168,10 @@ fn main() {
         "(a) labels: every (prediction, truth) pair of label vectors of length n over an alphabet of a symbols, for bool (n<=6 quick / n<=8 thorough), \
          usize {3,7,10,42} and String {cat,ant,dog,bee} (n<=4,a=4 quick / n<=5,a=4 and n=6,a=3 thorough), so label sets that differ between the sides are included; \
          (b) scores: every score vector of length 1..5 / 1..6 over {0,.25,.5,.75,1} and of length 1..3 / 1..4 over the clip-boundary alphabet {0,1e-8,.5,1-2^-24,1} x every boolean truth vector; \
-         (c) regression: every prediction vector x every non-constant truth vector of length 2..4 / 2..5 over {-2,-1,0,.5,1,3} in f64 (2..3 / 2..4 in f32), plus a 2-column matrix case for n<=3 / n<=4; \
+         (c) regression: every prediction vector x every non-constant truth vector of length 2..4 over {-2,-1,0,.5,1,3} in f64 (thorough: also length 5 over {-2,0,.5,1,3}; f32: 2..3 / 2..4), plus a 2-column matrix case for n<=3 / n<=4; \
          (d) silhouette: every multiset of 4..6 / 4..7 points of {0..4} (multiplicity <=2) and every 4..5 / 4..6 subset of the 3x3 lattice x every labelling with 2 (n<=5) or 3 (n>=6) label values; \
          (e) Pearson: every matrix with 2..4 rows and 2..3 columns (quick) / up to 5 rows or 4 columns (thorough) over {-1,0,2} (and {-1,0,.5,2}). \
-         Every case is additionally re-run under permutations applied to both sides: all n!-1 for small n, the generating set {swap(0,1), rotation, reversal} beyond (the sweep visits every input, so invariance under generators at every input implies invariance under every permutation). \
+         Every case is additionally re-run under permutations applied to both sides: all n!-1 for small n (usize/String labels n<=4, bool n<=4/5, scores n<=4/5, regression n<=3/4, silhouette n<=4/5, Pearson rows<=4), the generating set {swap(0,1), rotation, reversal} beyond (the sweep visits every input, so invariance under generators at every input implies invariance under every permutation); quick runs the longest regression length without explicit permutations. \
          evaluations = distinct in-domain inputs run through all of their metrics; non-trivial = labels: >=2 classes and prediction != truth; scores: 0 < AUC < 1; regression: prediction != truth; silhouette: every in-domain labelling; Pearson: some |r| < 1.",
     );
     ctx.assume("confusion-matrix layout: for predicted.confusion_matrix(truth) cell (i,j) counts prediction = class i, truth = class j (comment in confusion_matrix + test_confusion_matrix); classes = sorted union, reversed when exactly two; precision / recall / F-beta / one-vs-all / one-vs-one are the rustdoc's functions of those cells, not an external convention (under this layout linfa's binary `precision` = c00/(c00+c10) is what most texts call recall)");
@@ -201,10 +201,12 @@ fn main() {
             groups.push(Group::Labels { ty: "bool", alphabet: strs(&["false", "true"]), a: 2, pred, perms: pm(n, full_perm_n) });
         }
     }
+    // usize / String: all n! permutations up to n = 4 in both tiers, generators beyond
+    let full_perm_multi = 4usize;
     for (ty, alpha) in [("usize", strs(&["3", "7", "10", "42"])), ("string", strs(&["cat", "ant", "dog", "bee"]))] {
         for n in 1..=ctx.pick(4usize, 5usize) {
             for pred in en::sequences(n, 4) {
-                groups.push(Group::Labels { ty, alphabet: alpha.clone(), a: 4, pred, perms: pm(n, full_perm_n) });
+                groups.push(Group::Labels { ty, alphabet: alpha.clone(), a: 4, pred, perms: pm(n, full_perm_multi) });
             }
         }
         if ctx.thorough() {
@@ -232,12 +234,18 @@ fn main() {
     // (c) regression
     let ralpha: Vec<f64> = vec![-2.0, -1.0, 0.0, 0.5, 1.0, 3.0];
     let mut constant_truth_filtered: u64 = 0;
+    // n = 5 (thorough only) uses the five-letter alphabet {-2,0,.5,1,3}
+    let ralpha5: Vec<f64> = vec![-2.0, 0.0, 0.5, 1.0, 3.0];
     for (float, nmax, full) in [("f64", ctx.pick(4usize, 5usize), ctx.pick(3usize, 4usize)), ("f32", ctx.pick(3usize, 4usize), ctx.pick(3usize, 3usize))] {
         for n in 2..=nmax {
-            for p in en::sequences(n, ralpha.len()) {
+            let alpha = if n >= 5 { &ralpha5 } else { &ralpha };
+            // quick: the largest length runs without explicit permutations (every permuted input is
+            // itself enumerated and compared with the permutation-invariant reference)
+            let perms = if ctx.quick() && n == nmax && n > full { "none" } else { pm(n, full) };
+            for p in en::sequences(n, alpha.len()) {
                 let multi = n <= ctx.pick(3, 4) && float == "f64";
-                constant_truth_filtered += ralpha.len() as u64;
-                groups.push(Group::Regr { float, alphabet: ralpha.clone(), pred: p.iter().map(|&i| ralpha[i]).collect(), perms: pm(n, full), forms: n <= 3, multi });
+                constant_truth_filtered += alpha.len() as u64;
+                groups.push(Group::Regr { float, alphabet: alpha.clone(), pred: p.iter().map(|&i| alpha[i]).collect(), perms, forms: n <= 3, multi });
             }
         }
     }
